@@ -302,6 +302,47 @@ func codecCmd(args []string) int {
 		sink.Emit("drv", "codec.first", "class", k, "closed", closed, "closed_ms", time.Since(t0).Milliseconds(), "healthy_ok", pong, "sessions", len(srv.Svc.VerifState().Ctls))
 		stats["first"]++
 	}
+	// after login: a frame of a registered type whose body does not decode ends the session (the read loop stops at the first
+	// decode error), other sessions are unaffected
+	afters := map[string][]byte{
+		"after-invalid-json": frame('h', 5, []byte(`{"a":`)),
+		"after-wrong-shape":  frame('p', 7, []byte("[1,2,3]")),
+		"after-wrong-type":   frame('p', int64(len(`{"proxy_name":5}`)), []byte(`{"proxy_name":5}`)),
+		"after-empty-body":   frame('h', 0, nil),
+		"after-not-json":     frame('c', 9, []byte("not-json!")),
+		"after-unknown-type": frame('Z', 2, []byte("{}")),
+		"after-negative-len": frame('h', -3, nil),
+		"after-oversize-len": frame('h', 1<<40, nil),
+	}
+	akeys := []string{}
+	for k := range afters {
+		akeys = append(akeys, k)
+	}
+	sort.Strings(akeys)
+	for _, k := range akeys {
+		p, _, _ := peer.Login(srv.Addr, peer.LoginOpts{Token: env.Token})
+		if p == nil {
+			continue
+		}
+		_ = p.Send(&msg.Ping{})
+		_, pong0 := p.Take(2*time.Second, peer.IsPong)
+		t0 := time.Now()
+		_ = p.SendRaw(afters[k])
+		closed := waitFor(2500*time.Millisecond, p.Closed)
+		if !closed {
+			// still answering? (a session that survived the malformed frame)
+			_ = p.Send(&msg.Ping{})
+			p.Take(time.Second, peer.IsPong)
+			closed = p.Closed()
+		}
+		ms := time.Since(t0).Milliseconds()
+		p.Close()
+		waitFor(2*time.Second, func() bool { return len(srv.Svc.VerifState().Ctls) == 1 })
+		_ = healthy.Send(&msg.Ping{})
+		_, pong := healthy.Take(2*time.Second, peer.IsPong)
+		sink.Emit("drv", "codec.first", "class", k, "closed", closed && pong0, "closed_ms", ms, "healthy_ok", pong, "sessions", len(srv.Svc.VerifState().Ctls))
+		stats["after"]++
+	}
 	// well-formed large logins (body up to the frame limit) are answered by the running server
 	for _, sz := range []int{2000, 2600, 5000, 9000, 10000} {
 		p, _, _ := peer.Login(srv.Addr, peer.LoginOpts{Token: env.Token, Metas: map[string]string{"pad": strings.Repeat("x", sz)}})
